@@ -6,7 +6,7 @@ CONSTANTS
   Dev = {}
   LENS = {1, 171, 355}
   HDRS = {"pts"}
-  AFS = {"none", "raipcr", "big"}
+  AFS = {"none", "raipcr", "big", "bigrai"}
   BIGS = {FALSE, TRUE}
   PKTS = {"null", "toobig"}
 VIEW View
